@@ -32,6 +32,7 @@ type Server struct {
 	settingsMu            sync.RWMutex
 	supportsConfiguration bool
 	payeeTemplatesCache   sync.Map // map[protocol.DocumentURI]map[string][]analyzer.PostingTemplate
+	publishMu             sync.Mutex
 }
 
 func NewServer() *Server {
@@ -244,7 +245,6 @@ func (s *Server) publishDiagnostics(ctx context.Context, docURI protocol.Documen
 		return
 	}
 	resolved, loadErrors := s.loader.LoadFromContent(path, content)
-	s.resolved.Store(docURI, resolved)
 
 	diagnostics := s.analyze(content)
 
@@ -270,6 +270,16 @@ func (s *Server) publishDiagnostics(ctx context.Context, docURI protocol.Documen
 		})
 	}
 
+	// Analyses of different versions of a document run concurrently and may
+	// finish in any order. The result is stored and published only while its
+	// content is still the current one, and check and publish happen under one
+	// lock, so the latest version is always the last to be published.
+	s.publishMu.Lock()
+	defer s.publishMu.Unlock()
+	if current, ok := s.GetDocument(docURI); !ok || current != content {
+		return
+	}
+	s.resolved.Store(docURI, resolved)
 	_ = s.client.PublishDiagnostics(ctx, &protocol.PublishDiagnosticsParams{
 		URI:         docURI,
 		Diagnostics: diagnostics,
